@@ -415,6 +415,12 @@ func (agent *Agent) updateRemoteConfig(ctx context.Context, msg *types.MessageDa
 		if len(opts) > 0 {
 			agent.reportConfigStatus(protobufs.RemoteConfigStatuses_RemoteConfigStatuses_APPLYING, "")
 			err := agent.effectiveConfig.Reload(opts...)
+			var cfgErr *config.FileConfigError
+			if errors.As(err, &cfgErr) && !cfgErr.HasErrors() {
+				// warnings only (e.g. deprecations): the config has been applied
+				agent.logger.Errorf(ctx, "Reloaded config has warnings: %v", err)
+				err = nil
+			}
 			if err != nil {
 				agent.logger.Errorf(ctx, "Failed to reload config: %v", err)
 				agent.reportConfigStatus(protobufs.RemoteConfigStatuses_RemoteConfigStatuses_FAILED, err.Error())
